@@ -124,6 +124,23 @@ def cases(tier):
             for mem in MEMS + [1e-9, 1e9]:
                 for read in VALUES:
                     out.append((1, [(0, [(2, [[]], [(cpu, law, mem, read)])])]))
+    # values that differ only far behind the decimal point (and exact zeros next to tiny values), in two rows of one file:
+    # two operators of one pipeline, and two pipelines several arrivals apart - every row must come back with ITS values
+    NEAR = {"cpu": [0.0, 2.5e-10, 4e-10, 0.1, 0.1 + 1e-12, 0.3, 0.30000000000000004, 123456.12345678912, 123456.12345678948, 1e-300],
+            "mem": [None, 0.0, 1e-12, 7e-10, 0.5, 0.5 + 1e-13, 1e9, 1e9 + 1e-6],
+            "read": [0.0, 3e-10, 9e-10, 55.0, 55.00000000000001, 1e-300]}
+    base = dict(cpu=1.0, mem=0.5, read=2.0)
+    for field, vs in NEAR.items():
+        for v1 in vs:
+            for v2 in vs:
+                if v1 == v2 and v1 is not None:
+                    continue
+                a = dict(base); a[field] = v1
+                b = dict(base); b[field] = v2
+                va = (a["cpu"], "const", a["mem"], a["read"])
+                vb = (b["cpu"], "const", b["mem"], b["read"])
+                out.append((1, [(0, [(2, [[], [0]], [va, vb])])]))
+                out.append((1, [(0, [(2, [[]], [va])]), (1, [(1, [[], [0]], [(5.0, "sqrt", None, 1.0), (3.0, "const", 0.25, 4.0)])]), (3, [(0, [[]], [vb])])]))
     return out
 
 
@@ -208,7 +225,7 @@ def main(tier, seed):
     rep.cov["rule"] = ("every DAG on <=5 (quick) / <=6 (thorough) operators x value alphabets (0,1,15,0.1,37.5,1e-9,1e9,1/3; 7 laws; memory unset/0/0.5) x 3 priorities x 1-3 pipelines per arrival: "
                        "write with the real generator-to-rows + writer, read with the real reader, compare structure; read->write again, compare rows (arrival column excluded); "
                        "full per-field product on a single-operator pipeline; every single-rule corruption of a valid 3-pipeline file must be refused. "
-                       "states = distinct files written; non-trivial = files with multi-parent operators, several roots, memory 0 or non-integer values")
+                       "pairs of rows whose values differ only below 1e-9 (tiny vs zero, 0.1 vs 0.1+1e-12, large numbers) in one pipeline and several arrivals apart; states = distinct files written; non-trivial = files with multi-parent operators, several roots, memory 0 or non-integer values")
     cs = cases(tier)
     res = pmap(work, chunked(cs, NPROC * 4), chunks=1)
     for r in res:
